@@ -784,3 +784,113 @@ pub fn model_devices() -> Vec<DeviceInfo> {
         .map(|d| DeviceInfo { name: d.name, flash_words: d.flash_words, ram_start: d.ram_start, ram_size: d.ram_size, eeprom_size: d.eeprom_size, flags: d.flags })
         .collect()
 }
+
+#[derive(Clone, Copy, PartialEq, Eq, Debug)]
+pub enum ResolveMode {
+    /// unselected lines and the conditional directives themselves become blank lines
+    Blank,
+    /// they are removed
+    Delete,
+}
+
+/// The program with its conditionals resolved the way the documentation defines (first arm whose
+/// condition holds, else `.else`).  Used for the metamorphic "unselected lines deleted" relation.
+pub fn resolve_conditionals(prog: &[Ln], mode: ResolveMode) -> Result<Vec<Ln>, String> {
+    struct R {
+        equs: BTreeMap<String, E>,
+        defines: BTreeSet<String>,
+        mode: ResolveMode,
+        exited: bool,
+    }
+    fn phys(lines: &[Ln]) -> usize {
+        let mut n = 0;
+        for l in lines {
+            match &l.st {
+                Some(St::If(arms, els)) => {
+                    for (_, b) in arms {
+                        n += 1 + phys(b);
+                    }
+                    if let Some(b) = els {
+                        n += 1 + phys(b);
+                    }
+                    n += 1;
+                }
+                Some(St::MacroDef(_, b)) => n += 2 + phys(b),
+                _ => n += 1,
+            }
+        }
+        n
+    }
+    fn blanks(n: usize, out: &mut Vec<Ln>, mode: ResolveMode) {
+        if mode == ResolveMode::Blank {
+            for _ in 0..n {
+                out.push(Ln::blank());
+            }
+        }
+    }
+    fn walk(r: &mut R, lines: &[Ln], out: &mut Vec<Ln>) -> Result<(), String> {
+        for l in lines {
+            if r.exited {
+                blanks(phys(std::slice::from_ref(l)), out, r.mode);
+                continue;
+            }
+            match &l.st {
+                Some(St::If(arms, els)) => {
+                    let mut taken = false;
+                    for (c, body) in arms {
+                        blanks(1, out, r.mode);
+                        let sel = if taken {
+                            false
+                        } else {
+                            match c {
+                                Cond::Ifdef(n) => r.defines.contains(n),
+                                Cond::Ifndef(n) => !r.defines.contains(n),
+                                Cond::Expr(e) => {
+                                    let l0 = BTreeMap::new();
+                                    let s0 = BTreeMap::new();
+                                    match eval(e, &Env { labels: &l0, equs: &r.equs, sets: &s0, pc: None, depth: 0 }) {
+                                        Ok(v) => v != 0,
+                                        Err(x) => return Err(format!("condition not evaluable: {:?}", x)),
+                                    }
+                                }
+                            }
+                        };
+                        if sel {
+                            taken = true;
+                            walk(r, body, out)?;
+                        } else {
+                            blanks(phys(body), out, r.mode);
+                        }
+                    }
+                    if let Some(b) = els {
+                        blanks(1, out, r.mode);
+                        if taken {
+                            blanks(phys(b), out, r.mode);
+                        } else {
+                            walk(r, b, out)?;
+                        }
+                    }
+                    blanks(1, out, r.mode);
+                }
+                Some(St::Equ(n, e)) => {
+                    r.equs.insert(n.to_lowercase(), e.clone());
+                    out.push(l.clone());
+                }
+                Some(St::Define(n)) => {
+                    r.defines.insert(n.clone());
+                    out.push(l.clone());
+                }
+                Some(St::Exit) => {
+                    r.exited = true;
+                    out.push(l.clone());
+                }
+                _ => out.push(l.clone()),
+            }
+        }
+        Ok(())
+    }
+    let mut r = R { equs: BTreeMap::new(), defines: BTreeSet::new(), mode, exited: false };
+    let mut out = vec![];
+    walk(&mut r, prog, &mut out)?;
+    Ok(out)
+}
